@@ -232,7 +232,7 @@ def view_class(W, classes, cls, names):
 def run_case(case):
     W = ElabWorld()
     import abc
-    ns = {"icontract": icontract, "W": W, "abc": abc, "__name__": case.get("module", "elab_case")}
+    ns = {"icontract": icontract, "W": W, "abc": abc, "functools": functools, "__name__": case.get("module", "elab_case")}
     registered = []
     classes = []
     funcs = []
